@@ -16,6 +16,40 @@ fn main() {
             let v = dsets_of_size(dim, n);
             println!("dim {} n {}: {} classes in {:?}", dim, n, v.len(), t.elapsed());
         }
+        "manifolds" => {
+            use dsv::gen::manifold::*;
+            let large = args.get(2).map_or(false, |a| a == "large");
+            let t = std::time::Instant::now();
+            let c = corpus(1, large);
+            eprintln!("corpus built in {:?}", t.elapsed());
+            for (s, name, known) in c {
+                let t = std::time::Instant::now();
+                let h = dsv::props::c15::h1(&s);
+                eprintln!("{} chambers {} manifold {} H1 {:?} ({:?})", name, s.size, is_manifold_symbol(&s), h, t.elapsed());
+                let t = std::time::Instant::now();
+                let v = dsv::runner::guarded(|| dsv::props::c17::verdict(&s, false));
+                println!("{}\t{:?}\t{:?}\t{:?}", name, known, v, t.elapsed());
+            }
+        }
+        "cubic" => {
+            use dsv::gen::cubic::*;
+            use rayon::prelude::*;
+            let n: usize = args[2].parse().unwrap();
+            let count: u32 = args[3].parse().unwrap();
+            let minsize: usize = args.get(4).map_or(1, |a| a.parse().unwrap());
+            let res: Vec<String> = (0..count).into_par_iter().filter_map(|k| {
+                let mut h = (k as u64 + 1).wrapping_mul(0x9e3779b97f4a7c15);
+                let mut next = || { h ^= h >> 29; h = h.wrapping_mul(0xbf58476d1ce4e5b9); h ^= h >> 32; (h & 0xffff_ffff) as u32 };
+                let ng = 1 + (next() % 3) as usize;
+                let codes: Vec<u32> = (0..ng).map(|_| next()).collect();
+                let (ds, text) = quotient_by_codes(n, &codes);
+                if ds.size < minsize { return None; }
+                let t = std::time::Instant::now();
+                let v = dsv::runner::guarded(|| dsv::props::c17::verdict(&ds, false));
+                Some(format!("{}\t{:?}\t{:?}\t{}", ds.size, v, t.elapsed(), text))
+            }).collect();
+            for l in res { println!("{}", l); }
+        }
         "interesting3d" => {
             // 3D symbols of a given size whose euclidicity verdict is decided after simplification
             use rayon::prelude::*;
